@@ -862,6 +862,7 @@ def build_ctx(prog, rep):
     c.tail = merge_tail(c)
     c.used_agent_cfgs = {}      # agent cfg name -> {'exec': set, 'sched': set}
     c.nondefault = []           # (resource, schema, default schema) pairs
+    c.switch_hits = {}          # index into c.sched.rewrites -> configs hit
     return c
 
 
@@ -870,6 +871,81 @@ def effective_scheduler(ctx, name, lms):
         if isinstance(lms, dict) and lm in lms and name == old:
             name = new
     return name
+
+
+def lm_siblings(ctx, lm):
+    """the launch method names the LaunchMethod.create table maps to the class
+    it maps `lm` to (the name itself if the table does not know it)"""
+    try:
+        c = ctx.lm.rows.get(lm)
+    except TypeError:
+        c = None
+    if c is None:
+        return {lm}
+    return {k for k, v in ctx.lm.rows.items() if v is c}
+
+
+def check_switch(rep, ctx, res, schema, sn, eff, lms, hist, rid='R17.9'):
+    """R17.9, per merged config: the scheduler switch of
+    AgentSchedulingComponent.create is keyed by a launch method *name*, what
+    it adapts the scheduler to is the launch method *implementation*: a config
+    which lists any name LaunchMethod.create maps to that implementation (and
+    asks for the scheduler the switch replaces) must get the replacement"""
+    f = ctx.sched.func
+    if not isinstance(lms, dict):
+        return
+    for i, (lm, old, new) in enumerate(ctx.sched.rewrites):
+        sibs = lm_siblings(ctx, lm)
+        mine = sorted(k for k in lms if k in sibs)
+        if lm in lms and sn == old:
+            ctx.switch_hits[i] = ctx.switch_hits.get(i, 0) + 1
+        if not mine or sn != old:
+            continue
+        cls = ctx.lm.rows.get(lm)
+        cname = cls.name if cls is not None else lm
+        rep.check(eff == new, rid, f, '%s x %s: lists %s (implemented by %s, '
+                  'like %r) with scheduler %r and is switched to %r'
+                  % (res, schema, mine, cname, lm, old, new),
+                  construct='switch:%s:%s:%s' % (lm, res, schema),
+                  message='%s x %s lists launch method %s, which '
+                  'LaunchMethod.create maps to the same class (%s) as %r, and '
+                  'asks for scheduler %r: %s replaces %r by %r only if the '
+                  'name %r itself is in launch_methods, so this platform '
+                  'keeps %r while tasks are launched by %s'
+                  % (res, schema, mine, cname, lm, old, f.qual, old, new, lm,
+                     eff, cname), loc=f.loc(),
+                  history=hist + ': the agent creates scheduler %r instead of '
+                  '%r; slots are not laid out for the %s launch method'
+                  % (eff, new, cname))
+
+
+def check_switches(rep, ctx, rid='R17.9'):
+    """R17.9, per switch: the launch method name tested is one
+    LaunchMethod.create knows, and the switch applies to some shipped config"""
+    f = ctx.sched.func
+    for i, (lm, old, new) in enumerate(ctx.sched.rewrites):
+        rep.check(lm in ctx.lm, rid, f, 'the launch method %r tested by the '
+                  'scheduler switch %r -> %r is a row of LaunchMethod.create'
+                  % (lm, old, new), construct='switch-lm:%s' % (lm,),
+                  message='%s switches scheduler %r to %r for launch method '
+                  '%r, which is no row of the table of LaunchMethod.create '
+                  '%s: no valid config can list it, the switch never applies'
+                  % (f.qual, old, new, lm, sorted(ctx.lm.rows)), loc=f.loc(),
+                  history='every shipped platform meant to be switched to %r '
+                  'keeps scheduler %r' % (new, old))
+        n = ctx.switch_hits.get(i, 0)
+        rep.check(n > 0, rid, f, 'the scheduler switch %r -> %r for launch '
+                  'method %r applies to %d shipped resource x schema configs'
+                  % (old, new, lm, n), construct='switch-live:%s:%s' % (lm, old),
+                  message='%s switches scheduler %r to %r if %r is among the '
+                  'launch methods, but no shipped resource x schema lists %r '
+                  'together with agent_scheduler %r: the constants of the '
+                  'switch and of the configs do not agree, scheduler %r is '
+                  'never selected by it' % (f.qual, old, new, lm, lm, old,
+                                            new), loc=f.loc(),
+                  history='the shipped platforms listing launch method %r (or '
+                  'a name of the same implementation) are given scheduler %r '
+                  'instead of %r' % (lm, old, new))
 
 
 def check_entry(prog, rep, ctx, rel, text, site, label, entry, rid='R17.1'):
@@ -1066,6 +1142,9 @@ def check_entry(prog, rep, ctx, rel, text, site, label, entry, rid='R17.1'):
                   'component raises ValueError("Scheduler %s unknown")'
                   % (eff,))
 
+        if rid == 'R17.1':
+            check_switch(rep, ctx, res, schema, sn, eff, lms, hist)
+
         # executor
         sp = m.get(ctx.execu.keyattr or 'agent_spawner')
         rep.check(sp in ctx.execu, rid, where, what + 'agent_spawner %r is in '
@@ -1114,6 +1193,12 @@ def r17_1(prog, rep, ctx, rid='R17.1'):
              'of the config class and of the typed dictionaries nested in it, '
              'an overriding `verify`), evaluated on the merged config, accept '
              'every shipped resource x schema', minimum=120)
+    rep.rule('R17.9', 'the launch method name tested by a scheduler switch '
+             'of AgentSchedulingComponent.create is a row of '
+             'LaunchMethod.create, the switch applies to some shipped config, '
+             'and every shipped resource x schema which lists a launch method '
+             'of the same implementation class (with the scheduler the switch '
+             'replaces) is switched', minimum=3)
     n_res = n_pairs = 0
     for rel in ctx.files:
         base = rel.split('/')[-1]
@@ -1140,6 +1225,8 @@ def r17_1(prog, rep, ctx, rid='R17.1'):
                     if sname != entry.get('default_schema'):
                         ctx.nondefault.append(('%s.%s' % (site, label), sname,
                                                entry.get('default_schema')))
+    if rid == 'R17.1':
+        check_switches(rep, ctx)
     rep.stat('resource_entries', n_res)
     rep.stat('resource_x_schema', n_pairs)
     if n_res < 1:
@@ -5990,6 +6077,17 @@ def _memo_alias(key, fill='copy.deepcopy(rcfg)', ret='rcfg',
 
 
 MUTATIONS = [
+    # ---- scheduler switch (R17.9) -------------------------------------------
+    dict(name='R17.9 (C17-j4) JSRUN switch tests JSRUN_ERF', rules=('R17.9',), edits=[
+        (_SCB, "        if 'JSRUN' in session.rcfg.launch_methods:", "        if 'JSRUN_ERF' in session.rcfg.launch_methods:")]),
+    dict(name='R17.9 JSRUN switch tests a lower-case name no table knows', rules=('R17.9',), edits=[
+        (_SCB, "        if 'JSRUN' in session.rcfg.launch_methods:", "        if 'jsrun' in session.rcfg.launch_methods:")]),
+    dict(name='R17.9 JSRUN switch replaces a scheduler no JSRUN platform asks for', rules=('R17.9',), edits=[
+        (_SCB, "            if name == SCHEDULER_NAME_CONTINUOUS:\n                name = SCHEDULER_NAME_CONTINUOUS_JSRUN",
+               "            if name == SCHEDULER_NAME_CONTINUOUS_ORDERED:\n                name = SCHEDULER_NAME_CONTINUOUS_JSRUN")]),
+    dict(name='R17.9 JSRUN_ERF switch in conjunction form', rules=('R17.9',), edits=[
+        (_SCB, "        if 'JSRUN' in session.rcfg.launch_methods:\n            if name == SCHEDULER_NAME_CONTINUOUS:\n                name = SCHEDULER_NAME_CONTINUOUS_JSRUN\n",
+               "        if name == SCHEDULER_NAME_CONTINUOUS and \\\n           'JSRUN_ERF' in session.rcfg.launch_methods:\n            name = SCHEDULER_NAME_CONTINUOUS_JSRUN\n")]),
     # ---- resource configs ---------------------------------------------------
     dict(name='R17.1 resource names an unknown resource manager', rules=('R17.1',), edits=[
         (_UVA, '"resource_manager"            : "SLURM",', '"resource_manager"            : "SLURM2",')]),
@@ -6270,6 +6368,22 @@ MUTATIONS = [
 ]
 
 SILENT = [
+    # ---- scheduler switch (R17.9): behaviour preserving rewrites -------------
+    dict(name='JSRUN switch with the tests nested the other way round', edits=[
+        (_SCB, "        if 'JSRUN' in session.rcfg.launch_methods:\n            if name == SCHEDULER_NAME_CONTINUOUS:\n                name = SCHEDULER_NAME_CONTINUOUS_JSRUN\n",
+               "        if name == SCHEDULER_NAME_CONTINUOUS:\n            if 'JSRUN' in session.rcfg.launch_methods:\n                name = SCHEDULER_NAME_CONTINUOUS_JSRUN\n")]),
+    dict(name='JSRUN switch compares with the literal scheduler names', edits=[
+        (_SCB, "            if name == SCHEDULER_NAME_CONTINUOUS:\n                name = SCHEDULER_NAME_CONTINUOUS_JSRUN",
+               "            if name == 'CONTINUOUS':\n                name = 'CONTINUOUS_JSRUN'")]),
+    dict(name='JSRUN switch after the table, rcfg through a temporary', edits=[
+        (_SCB, "        if 'JSRUN' in session.rcfg.launch_methods:\n            if name == SCHEDULER_NAME_CONTINUOUS:\n                name = SCHEDULER_NAME_CONTINUOUS_JSRUN\n", ""),
+        (_SCB, "        if name not in impl:\n            raise ValueError('Scheduler %s unknown' % name)\n",
+               "        rcfg = session.rcfg\n        if 'JSRUN' in rcfg.launch_methods:\n            if name == SCHEDULER_NAME_CONTINUOUS:\n                name = SCHEDULER_NAME_CONTINUOUS_JSRUN\n\n        if name not in impl:\n            raise ValueError('Scheduler %s unknown' % name)\n")]),
+    dict(name='second switch for the other name of the JSRUN class', edits=[
+        (_SCB, "        impl = {\n\n            SCHEDULER_NAME_CONTINUOUS_ORDERED ",
+               "        if 'JSRUN_ERF' in session.rcfg.launch_methods:\n            if name == SCHEDULER_NAME_CONTINUOUS:\n                name = SCHEDULER_NAME_CONTINUOUS_JSRUN\n\n        impl = {\n\n            SCHEDULER_NAME_CONTINUOUS_ORDERED ")]),
+    dict(name='a platform which lists JSRUN_ERF next to JSRUN', edits=[
+        ('configs/resource_llnl.json', '"JSRUN" : {}', '"JSRUN" : {},\n                                         "JSRUN_ERF" : {}')]),
     dict(name='whole-line comment and reflowed values in a resource config', edits=[
         (_UVA, '        "default_queue"               : "standard",', '      # "default_queue"               : "parallel",\n        "default_queue":"standard",')]),
     dict(name='order omitted where it equals the configured methods', edits=[
